@@ -21,7 +21,7 @@ def c08_ops(rng, tier):
         y = rng.randint(1, 9990)
         for k in range(12):
             L.append("c08.scm %d %d 0" % (y, k))
-            L.append("c08.scm %d %d %d" % (y, k, rng.choice([1, -1, 12, -12, 11, 13, rng.randint(-200, 200)])))
+            L.append("c08.scm %d %d %d" % (y, k, rng.choice([1, -1, 12, -12, 11, 13, 60, -60, 120, 600, rng.choice(CYCLE_STEPS), rng.randint(-200, 200)])))
     return L
 
 
